@@ -30,19 +30,18 @@ missing=[t for t in base if not (t in passed or ('/*' in t and any(fnmatch.fnmat
 print('baseline with change: %d/%d pass' % (len(base)-len(missing), len(base)))
 sys.exit(1 if missing else 0)
 "; B=$?
-cd /; git -C /repo worktree remove --force $WT
 echo "demo without change: exit $W0 (want 0); with change: exit $W1 (want non-zero); baseline exit $B (want 0)"
-if [ $W0 -ne 0 ] || [ $W1 -eq 0 ] || [ $B -ne 0 ]; then echo "NOT CONFIRMED"; exit 1; fi
-# run the checks on /repo
-cd /repo; git status --short | grep -q . && { echo "/repo not clean"; exit 2; }
-git apply $SRC/patch.diff
+if [ $W0 -ne 0 ] || [ $W1 -eq 0 ] || [ $B -ne 0 ]; then echo "NOT CONFIRMED"; cd /; git -C /repo worktree remove --force $WT; exit 1; fi
+# run the checks against the scratch worktree (the change is applied there; /repo stays untouched).
+# each check gets its own evidence/replay area so that /verif's committed evidence is not disturbed.
 CAUGHT=""
 for c in $CHECKS; do
-  OUT=$(cd /verif && ./check $c 2>&1); RC=$?
+  OUT=$(cd /verif && VERIF_REPO=$WT VERIF_EVIDENCE_DIR=/tmp/seed-evidence-$NAME ./check $c 2>&1); RC=$?
   echo "$OUT" | grep -E "^VIOLATION|violations=|^INFRA" | cut -c1-160 | head -3
   if [ $RC -eq 1 ]; then CAUGHT="$CAUGHT $c"; fi
 done
-git checkout -- .; git status --short
+rm -rf /tmp/seed-evidence-$NAME
+cd /; git -C /repo worktree remove --force $WT
 mkdir -p /verif/seeded/$NAME
 cp $SRC/patch.diff /verif/seeded/$NAME/patch.diff
 cp $DEMOFILE /verif/seeded/$NAME/$(basename $DEMOFILE).txt
